@@ -14,4 +14,4 @@ done; wait
 # hash.h defines two external functions (finding C18.H1); rename them in the replay unit only
 clang $CF -Dcstl_hash_size=replay_hash_size -Dcstl_hash_load=replay_hash_load -c "$src" -o $T/replay.o
 clang -fsanitize=address,undefined $T/*.o -lm -o $T/replay
-ASAN_OPTIONS=detect_leaks=1:allocator_may_return_null=1 $T/replay "$@"
+ASAN_OPTIONS=${ASAN_OPTIONS:-detect_leaks=0}:allocator_may_return_null=1 $T/replay "$@"
